@@ -716,7 +716,16 @@ pub fn encode_into(it: &Item, out: &mut Vec<u8>, st: &mut Style) {
         }
         Item::Tag(t, b) => {
             put_head(out, 6, *t, st);
-            encode_into(b, out, st);
+            match (&**b, *t) {
+                // a bignum's byte string stays definite: whether the CBOR layer folds the tag into an
+                // integer depends on that (DESIGN.md section 1 N1, finding P4), and an indefinite one
+                // is outside the verdict alphabet
+                (Item::Bytes(x), 2 | 3) => {
+                    put_head(out, 2, x.len() as u64, st);
+                    out.extend_from_slice(x);
+                }
+                _ => encode_into(b, out, st),
+            }
         }
         Item::Bool(false) => out.push(0xf4),
         Item::Bool(true) => out.push(0xf5),
